@@ -480,6 +480,60 @@ theorem step_out (f : List α → List ρ) (fails : Nat → Bool) (b : Bool) (s 
       | (simp only [Option.ite_none_right_eq_some, Option.some.injEq, Prod.mk.injEq] at hs; obtain ⟨_, _, rfl⟩ := hs; simp)
       | (simp only [Option.ite_none_left_eq_some, Option.some.injEq, Prod.mk.injEq] at hs; obtain ⟨_, _, rfl⟩ := hs; simp)
 
+def Pc.isAdded : Pc α → Bool
+  | .added => true
+  | _ => false
+
+/-- capacities are constants of a run; the timeout goroutine is never between `Add` and `IsFull` -/
+theorem step_const (f : List α → List ρ) (fails : Nat → Bool) (b : Bool) (s s' : St α ρ) (a : Act α) (o : List ρ)
+    (hs : step f fails b s a = some (s', o)) :
+    s'.cap = s.cap ∧ (s.tp.isAdded = false → s'.tp.isAdded = false) := by
+  cases a with
+  | lock t =>
+    cases t <;> simp only [step, pc, other, setPc] at hs <;> split at hs <;> try (simp at hs)
+    all_goals (obtain ⟨_, rfl, _⟩ := hs; simp_all [Pc.isAdded])
+  | flushA t =>
+    cases t <;> simp only [step, pc, other, setPc] at hs <;> split at hs <;> try (simp at hs)
+    all_goals (obtain ⟨rfl, _⟩ := hs; simp_all [Pc.isAdded])
+  | flushB t =>
+    cases t <;> simp only [step, pc, other, setPc] at hs <;> split at hs <;> try (simp at hs)
+    all_goals first
+      | (obtain ⟨rfl, _⟩ := hs; simp_all [Pc.isAdded])
+      | (obtain ⟨_, rfl, _⟩ := hs; simp_all [Pc.isAdded])
+  | pAdd x | pIsFull | pFlush | fire | stale | tmoRecv | fetchErr q | fetchDone q | drainStart | drainNext | send | recv =>
+    simp only [step] at hs
+    repeat' (split at hs)
+    all_goals first
+      | (simp at hs; done)
+      | (simp only [Option.some.injEq, Prod.mk.injEq] at hs; obtain ⟨rfl, _⟩ := hs; simp_all [Pc.isAdded])
+      | (simp only [Option.ite_none_right_eq_some, Option.ite_none_left_eq_some, Option.some.injEq, Prod.mk.injEq] at hs
+         obtain ⟨_, rfl, _⟩ := hs; simp_all [Pc.isAdded])
+
+theorem run_const (f : List α → List ρ) (fails : Nat → Bool) (as : List (Act α)) :
+    ∀ (r r' : Run α ρ), exec f fails true r as = some r' →
+      r'.st.cap = r.st.cap ∧ (r.st.tp.isAdded = false → r'.st.tp.isAdded = false) := by
+  induction as with
+  | nil => intro r r' he; simp [exec] at he; subst he; exact ⟨rfl, fun h => h⟩
+  | cons a as ih =>
+    intro r r' he
+    simp only [exec] at he
+    split at he
+    · simp at he
+    · next s' o hs =>
+      obtain ⟨c1, c3⟩ := step_const f fails true r.st s' a o hs
+      obtain ⟨i1, i2⟩ := ih _ r' he
+      exact ⟨by rw [i1]; exact c1, fun h => i2 (c3 h)⟩
+
+theorem cap_const (f : List α → List ρ) (fails : Nat → Bool) (as : List (Act α)) (r r' : Run α ρ)
+    (he : exec f fails true r as = some r') : r'.st.cap = r.st.cap := (run_const f fails as r r' he).1
+
+theorem tmo_never_added (f : List α → List ρ) (fails : Nat → Bool) (as : List (Act α)) (r r' : Run α ρ)
+    (he : exec f fails true r as = some r') (h0 : r.st.tp.isAdded = false) : pc r'.st .tmo ≠ .added := by
+  have := (run_const f fails as r r' he).2 h0
+  intro h
+  simp [pc] at h
+  simp [h, Pc.isAdded] at this
+
 theorem inputs_snoc (as : List (Act α)) (a : Act α) : inputs (as ++ [a]) = inputs as ++ inputOf a := by
   simp [inputs]
 
